@@ -2,6 +2,7 @@ CONSTANTS
   MaxBlocks = 3
   MaxBlocksAll = 2
   ExtraKinds <- LongKinds
+  ExtraKindsAll <- LongKinds
   BigCounts <- BigThorough
 SPECIFICATION Spec
 INVARIANTS MachineOK FormOK EncodingsOK GenExact EmitCase
